@@ -4,7 +4,7 @@ from __future__ import annotations
 from hypothesis import strategies as st
 
 from .. import gen, ref
-from ..build import Ctx, J, T, make_graph
+from ..build import crc, Ctx, J, T, make_graph
 from ..core import Violation
 from ..gen import prob
 from ..observe import run_async
@@ -99,6 +99,11 @@ def _materialise(topo, auto_all=False, answers=None):
             m["rename_inputs"] = {a: b, b: a}
         ans = n["answers"]
         m["answer"] = dict(ans) if len(n["outs"]) > 1 else ans[n["outs"][0]]
+        if len(n["outs"]) == 1 and not n.get("emit") and crc(n["name"]) % 2 == 0:
+            # declared under a temporary output name, looked at / used in a graph, and only then renamed to the name the program uses:
+            # the pause must name the CURRENT output as the key to answer under
+            m["outs"] = [n["outs"][0] + "_pre"]
+            m["renames"] = list(m.get("renames", [])) + [{"kind": "warm"}, {"kind": "outputs", "map": {n["outs"][0] + "_pre": n["outs"][0]}}]
         if auto_all:
             m["mode"] = "auto"
         out.append(m)
